@@ -8,7 +8,13 @@ Rec == ndJsonDeserialize(IOEnv.TRACE)
 VARIABLE l
 Drift(sig, i) == PrintT(<<"DRIFT", sig, i>>)
 CheckLine(e, i) ==
-    IF e.acc \notin AllPartial THEN Drift("GROWTH/coded/unknown_accessor", i)
+    IF "meaning" \in DOMAIN e THEN          \* {acc, meaning: [[raw, name]...]}: Debug name of the accessor's result per documented raw value
+       (IF e.acc \in DOMAIN DrdMeanings /\ \A k \in DOMAIN e.meaning : e.meaning[k][1] \in DOMAIN DrdMeanings[e.acc] /\ DrdMeanings[e.acc][e.meaning[k][1]] = e.meaning[k][2]
+          THEN TRUE ELSE Drift("GROWTH/coded/" \o e.acc \o "/meaning", i))
+    ELSE IF "scaled" \in DOMAIN e THEN      \* {acc, scaled: [[raw, round(value * den)]...]}
+       (IF e.acc \in DOMAIN DrdScaled /\ \A k \in DOMAIN e.scaled : e.scaled[k][2] = (IF e.acc = "hdr_azimuth_indexing_mode" /\ e.scaled[k][1] = 0 THEN -1 ELSE e.scaled[k][1] * DrdScaled[e.acc][1])
+          THEN TRUE ELSE Drift("GROWTH/coded/" \o e.acc \o "/scaling", i))
+    ELSE IF e.acc \notin AllPartial THEN Drift("GROWTH/coded/unknown_accessor", i)
     ELSE /\ IF {e.returns_for[k] : k \in DOMAIN e.returns_for} = Documented(e.acc) /\ e.returns = Cardinality(Documented(e.acc)) THEN TRUE
             ELSE Drift("GROWTH/coded/" \o e.acc \o "/domain", i)
          /\ IF e.first_panic = Min(Undefined(e.acc)) /\ e.panics = e.tried - e.returns THEN TRUE ELSE Drift("GROWTH/coded/" \o e.acc \o "/panics", i)
